@@ -105,6 +105,12 @@ def defaultMandatorySessions : List Nat := {lean_nat_list(P.mandatory_sessions)}
 def defaultOptionalSessions : List Nat := {lean_nat_list(P.optional_sessions)}
 def defaultMandatoryServices : List Nat := {lean_nat_list(P.mandatory_services)}
 def defaultOptionalServicesSorted : List Nat := {lean_nat_list(sorted(int(s) for s in P.optional_services))}
+/-- the default `optional_services` in the order of the list the class body makes from a set:
+    `list(set(UDSIsoServices) - set(mandatory_services + [UDSIsoServices.NegativeResponse]))` -/
+def defaultOptionalServices : List Nat := {lean_nat_list([int(s) for s in P.optional_services])}
+def sidNegativeResponse : Nat := {int(UDSIsoServices.NegativeResponse)}
+/-- `hash(member) == int(member)` for every member of `UDSIsoServices` (IntEnum: `int.__hash__`) -/
+def enumHashIsInt : Bool := {"true" if all(hash(s) == int(s) for s in UDSIsoServices) else "false"}
 
 end Gallia.Gen.C16Tables
 """
